@@ -93,6 +93,9 @@ def c06(ctx, res):
         ext = ".lc3" if ix % 2 == 0 else ".obj"
         obj = "r%d%s" % (ix, ext)
         _write(os.path.join(d, src), e["source"])
+        if ix % 2 == 0:
+            # destination already exists and is longer than the new object file
+            _write(os.path.join(d, obj), b"\xAB\xCD" * 4096)
         c = lace(ctx, ["compile", src, obj] + feat(e), cwd=d)
         ra = lace(ctx, ["run", src, "--minimal"] + feat(e), stdin=bytes(e["input"]), cwd=d)
         data = None
@@ -106,6 +109,7 @@ def c06(ctx, res):
         res.evaluations += 1
         res.distinct += 1
         res.cls("round_trip")
+        res.cls("dest:" + ("longer_file_existed" if ix % 2 == 0 else "absent"))
         res.cls("ext:" + obj.rsplit(".", 1)[1])
         img = e["image"]
         want = b"".join(int(w).to_bytes(2, "big") for w in img)
@@ -203,7 +207,7 @@ def c06(ctx, res):
             if not ran:
                 res.violate("C06/loader-rejected/" + cls, "an even-length image which fits below 0x10000 was rejected (exit %s)" % r.rc, detail)
     res.distinct += len(set(files))
-    res.require(["round_trip", "ext:lc3", "ext:obj", "loader:empty", "loader:odd", "loader:fits", "loader:too_long",
+    res.require(["round_trip", "dest:longer_file_existed", "dest:absent", "ext:lc3", "ext:obj", "loader:empty", "loader:odd", "loader:fits", "loader:too_long",
                  "edge:FFFF", "edge:10000", "edge:FFFE"], "L2")
     return res
 
@@ -383,7 +387,7 @@ def snapshot(path):
 def c08(ctx, res):
     cp = corpus(ctx)
     d = _dir(ctx, "c08")
-    SENT = b"PREVIOUS CONTENTS\n"
+    SENT = b"PREVIOUS CONTENTS\n" * 300  # longer than any object file written here
     cases = []  # (kind, source, stack, dest_rel, pre_existing, expected image or None)
     for e in cp["emit_fail"]:
         for pre in (True, False):
